@@ -282,7 +282,7 @@ func Run(spec *Spec, mainFn func()) *Result {
 			res.Ops = OpLog
 		} else {
 			for i := range OpLog {
-				if OpLog[i].Mut || OpLog[i].Fault || strings.HasPrefix(OpLog[i].Op, "watch") || OpLog[i].Op == "exit" || OpLog[i].Op == "chdir" {
+				if OpLog[i].Mut || OpLog[i].Fault || strings.HasPrefix(OpLog[i].Op, "watch") || OpLog[i].Op == "exit" || OpLog[i].Op == "chdir" || OpLog[i].Op == "edit" || OpLog[i].Op == "born" || OpLog[i].Op == "getwd" {
 					res.Ops = append(res.Ops, OpLog[i])
 				}
 			}
